@@ -125,57 +125,19 @@ Proof. reflexivity. Qed.
 Lemma frame_app p rest : frame p ++ rest = dec (length p) ++ 58%N :: p ++ 44%N :: rest.
 Proof. unfold frame. rewrite <- app_assoc. cbn [app]. rewrite <- app_assoc. reflexivity. Qed.
 
-Lemma write_ns_ok x p :
-  length p <= ns_maxsize x -> sintrs (script (ns_bs x)) = [] -> concat (sbuf (ns_bs x)) = [] ->
-  exists x', write_ns x p = (ONone, x') /\
-    wire (ns_bs x') = wire (ns_bs x) ++ frame p /\ concat (sbuf (ns_bs x')) = [] /\
-    sintrs (script (ns_bs x')) = [] /\ ns_maxsize x' = ns_maxsize x.
-Proof.
-  intros Hp Hs Hb. unfold write_ns. rewrite (proj2 (Nat.ltb_ge _ _)) by assumption.
-  rewrite frame_model.
-  destruct (send (ns_bs x) (frame p)) as [o s'] eqn:E. pose proof (send_gen _ _ _ _ E) as (_ & sent & Hw & Hc & Hcase).
-  destruct o as [|n| |e]; try contradiction.
-  - destruct Hcase as (Hsb & _ & Hst). eexists. split; [reflexivity|]. cbn [ns_bs with_bs ns_maxsize].
-    rewrite Hsb, Hb, !app_nil_r in Hc. repeat split; auto. congruence.
-  - rewrite Hs in Hcase. discriminate.
-Qed.
-
-Lemma ns_run_writes : forall ps x obs w,
-  Forall (fun p => length p <= ns_maxsize x) ps ->
-  sintrs (script (ns_bs x)) = [] -> concat (sbuf (ns_bs x)) = [] ->
-  ns_run true 0 x (map WriteNs ps) = (obs, w) ->
-  wire (ns_bs w) = wire (ns_bs x) ++ concat (map frame ps) /\ getsendbuffer (ns_bs w) = [] /\
-  map (fun y => o_out (snd y)) obs = map (fun _ => ONone) ps.
-Proof.
-  induction ps as [|p ps IH]; intros x obs w Hall Hs Hb H; cbn [map ns_run] in H.
-  - inversion H; subst. cbn. rewrite app_nil_r. auto.
-  - inversion Hall as [|? ? Hp Hrest]; subst.
-    cbn [ns_step] in H. destruct (write_ns_ok x p Hp Hs Hb) as (x1 & E & Hw & Hb1 & Hs1 & Hm).
-    rewrite E in H. destruct (ns_run true 0 x1 (map WriteNs ps)) as [obs' w'] eqn:E2.
-    inversion H; subst; clear H.
-    apply IH in E2; auto; [|rewrite Hm; assumption].
-    destruct E2 as (H1 & H2 & H3). cbn [map concat o_out snd]. rewrite H1, Hw, <- app_assoc, H3. auto.
-Qed.
-
-Theorem write_ns_frames wmax sc ps :
-  sintrs sc = [] -> Forall (fun p => length p <= wmax) ps ->
-  let '(obs, w) := ns_run true 0 (ns_init wmax [] sc) (map WriteNs ps) in
-  wire (ns_bs w) = concat (map frame ps) /\ getsendbuffer (ns_bs w) = [] /\
-  map (fun x => o_out (snd x)) obs = map (fun _ => ONone) ps.
-Proof.
-  intros Hs Hall. destruct (ns_run true 0 (ns_init wmax [] sc) (map WriteNs ps)) as [obs w] eqn:E.
-  apply ns_run_writes in E; auto.
-Qed.
-
 (* ---- read side --------------------------------------------------------------------------------- *)
 Record ns_inv (x : ns) : Prop := mkNsInv {
   I_wf : wf_net (nt (ns_bs x)) = true;
   I_rs : 1 <= recvsize (ns_bs x);
-  I_msg : ns_msgsize_maxsize x = length (dec (ns_maxsize x)) + 1
+  I_msg : ns_msgsize_maxsize x = length (dec (ns_maxsize x)) + 1;
+  I_dl : dl (ns_bs x) = true      (* BufferedSocket(sock) always has a (default) timeout *)
 }.
 
 Definition ns_rem (x : ns) : bytes := remaining (ns_bs x).
 Definition ns_tmo (x : ns) : list exn := intrs (nt (ns_bs x)).
+Definition ns_net (x : ns) : net := nt (ns_bs x).
+(* read_ns can be interrupted by the network or by a deadline (the inner BufferedSocket always has one) *)
+Definition ns_intr_by (e : exn) (x x' : ns) : Prop := intr_by true e (ns_net x) (ns_net x').
 
 Lemma spec_recv_one c rest dd :
   spec_recv_ok (c :: rest) 1 dd = true -> dd = [c].
@@ -186,105 +148,3 @@ Proof.
   apply andb_true_iff in H1 as [H1 _]. apply N.eqb_eq in H1. congruence.
 Qed.
 
-Lemma read_ns_ok x p rest out x' :
-  ns_inv x -> length p <= ns_maxsize x -> ns_rem x = frame p ++ rest ->
-  read_ns x None = (out, x') ->
-  ns_inv x' /\ ns_maxsize x' = ns_maxsize x /\
-  ((exists e, out = OExn e /\ ns_rem x' = ns_rem x /\ ns_tmo x = e :: ns_tmo x') \/
-   (out = OBytes p /\ ns_rem x' = rest /\ ns_tmo x' = ns_tmo x)).
-Proof.
-  intros [W R M] Hp Hrem H. unfold ns_rem, ns_tmo in *. unfold read_ns in H.
-  set (k := length (dec (length p))).
-  assert (Hk : k + 1 <= ns_msgsize_maxsize x).
-  { rewrite M. pose proof (dec_len_mono _ _ Hp). unfold k. lia. }
-  (* phase 1: the size prefix *)
-  destruct (recv_until (ns_bs x) [58%N] (MVal (ns_msgsize_maxsize x)) false) as [o1 s1] eqn:E1.
-  pose proof (recv_until_ok _ _ _ _ _ _ W R E1) as (W1 & SR1 & _ & C1).
-  assert (Rs1 : 1 <= recvsize s1) by (destruct SR1 as (_ & -> & _); assumption).
-  destruct C1 as [(e & -> & Hr1 & Ht1)|(_ & Ht1 & C1)].
-  { inversion H; subst; clear H. cbn [ns_bs with_bs ns_maxsize ns_msgsize_maxsize].
-    split; [constructor; assumption|]. split; [reflexivity|]. left. exists e. auto. }
-  cbn [spec_framing resolve lim_take] in C1. rewrite Hrem in C1.
-  assert (F1 : first_occ [58%N] (firstn (ns_msgsize_maxsize x) (frame p ++ rest)) = Some k).
-  { unfold frame. rewrite <- app_assoc. cbn [app]. rewrite firstn_app_cons by (fold k; lia).
-    apply first_occ_single. apply dec_no_colon. }
-  rewrite F1 in C1. inversion C1 as [[Ho1 Hrem1]]; clear C1.
-  assert (Hpre : firstn k (frame p ++ rest) = dec (length p)).
-  { unfold frame. rewrite <- app_assoc. rewrite firstn_app_le by (fold k; lia). apply firstn_all. }
-  assert (Hrest1 : skipn (k + 1) (frame p ++ rest) = p ++ 44%N :: rest).
-  { unfold frame. rewrite <- app_assoc. cbn [app]. rewrite <- app_assoc. cbn [app].
-    rewrite skipn_app.
-    rewrite skipn_all2 by (fold k; lia). cbn [app].
-    replace (k + 1 - length (dec (length p))) with 1 by (unfold k; lia). reflexivity. }
-  rewrite Hpre in Ho1. rewrite Hrest1 in Hrem1. subst o1.
-  rewrite py_int_dec in H. rewrite (proj2 (Nat.ltb_ge _ _)) in H by assumption.
-  (* phase 2: the payload *)
-  destruct (recv_size s1 (length p)) as [o2 s2] eqn:E2.
-  pose proof (recv_size_ok _ _ _ _ W1 Rs1 E2) as (W2 & SR2 & _ & C2).
-  assert (Rs2 : 1 <= recvsize s2) by (destruct SR2 as (_ & -> & _); assumption).
-  destruct C2 as [(e & -> & Hr2 & Ht2)|(_ & Ht2 & C2)].
-  { inversion H; subst; clear H. cbn [ns_bs with_bs ns_maxsize ns_msgsize_maxsize nt rbuf set_recv].
-    split; [constructor; assumption|]. split; [reflexivity|]. left. exists e. split; [reflexivity|].
-    split; [|congruence].
-    rewrite remaining_set_recv, <- app_assoc. change (rbuf s2 ++ flat (nt s2)) with (remaining s2).
-    rewrite Hr2, <- Hrem1, Hrem, frame_app, <- app_assoc. reflexivity. }
-  cbn [spec_framing] in C2. rewrite <- Hrem1 in C2.
-  assert (Hc2 : Nat.leb (length p) (length (p ++ 44%N :: rest)) && negb (is_nil (p ++ 44%N :: rest)) = true).
-  { rewrite (proj2 (Nat.leb_le _ _)) by (rewrite app_length; lia). destruct p; reflexivity. }
-  rewrite Hc2 in C2. inversion C2 as [[Ho2 Hrem2]]; clear C2.
-  rewrite firstn_app_le, firstn_all in Ho2 by lia.
-  rewrite skipn_app, skipn_all, Nat.sub_diag in Hrem2. cbn [app skipn] in Hrem2. subst o2.
-  (* phase 3: the trailing comma *)
-  destruct (recv s2 1) as [o3 s3] eqn:E3.
-  pose proof (recv_ok _ _ _ _ W2 Rs2 E3) as (W3 & SR3 & _ & C3).
-  assert (Rs3 : 1 <= recvsize s3) by (destruct SR3 as (_ & -> & _); assumption).
-  destruct C3 as [(e & -> & Hr3 & Ht3)|(_ & Ht3 & (dd & -> & Hok & Hr3))].
-  { inversion H; subst; clear H. cbn [ns_bs with_bs ns_maxsize ns_msgsize_maxsize nt rbuf set_recv].
-    split; [constructor; assumption|]. split; [reflexivity|]. left. exists e. split; [reflexivity|].
-    split; [|congruence].
-    rewrite remaining_set_recv, <- app_assoc. change (rbuf s3 ++ flat (nt s3)) with (remaining s3).
-    rewrite Hr3, <- Hrem2, Hrem, frame_app, <- app_assoc. reflexivity. }
-  rewrite <- Hrem2 in Hok, Hr3. apply spec_recv_one in Hok. subst dd. cbn [length skipn] in Hr3.
-  change (bytes_eqb [44%N] [44%N]) with true in H. cbv iota in H.
-  inversion H; subst; clear H. cbn [ns_bs with_bs ns_maxsize ns_msgsize_maxsize].
-  split; [constructor; assumption|]. split; [reflexivity|]. right. repeat split; congruence.
-Qed.
-
-Lemma read_ns_retry_ok : forall fuel x p rest out x',
-  ns_inv x -> length p <= ns_maxsize x -> ns_rem x = frame p ++ rest -> length (ns_tmo x) <= fuel ->
-  read_ns_retry fuel x None = (out, x') ->
-  ns_inv x' /\ ns_maxsize x' = ns_maxsize x /\ out = OBytes p /\ ns_rem x' = rest.
-Proof.
-  induction fuel as [|f IH]; intros x p rest out x' I Hp Hrem F H; cbn [read_ns_retry] in H;
-    destruct (read_ns x None) as [o1 x1] eqn:E;
-    destruct (read_ns_ok _ _ _ _ _ I Hp Hrem E) as (I1 & Hm & [(e & -> & Hr & Ht)|(-> & Hr & Ht)]).
-  - rewrite Ht in F. cbn in F. lia.
-  - cbn in H. inversion H; subst. auto.
-  - cbn [is_interrupt] in H. unfold ns_tmo in Ht. rewrite (intrs_head _ _ _ Ht) in H.
-    apply IH with (p := p) (rest := rest) in H; try congruence.
-    unfold ns_tmo in F. rewrite Ht in F. cbn in F. unfold ns_tmo. lia.
-  - cbn in H. inversion H; subst. auto.
-Qed.
-
-Lemma ns_read_retry_ok : forall ps x,
-  ns_inv x -> Forall (fun p => length p <= ns_maxsize x) ps -> ns_rem x = concat (map frame ps) ->
-  ns_read_retry x (length ps) = map OBytes ps.
-Proof.
-  induction ps as [|p ps IH]; intros x I Hall Hrem; [reflexivity|].
-  inversion Hall as [|? ? Hp Hrest]; subst. cbn [length ns_read_retry map].
-  destruct (read_ns_retry (timeouts (nt (ns_bs x))) x None) as [out x'] eqn:E.
-  cbn [map concat] in Hrem.
-  apply read_ns_retry_ok with (p := p) (rest := concat (map frame ps)) in E; auto;
-    try (unfold ns_tmo, timeouts; apply le_n).
-  destruct E as (I' & Hm & -> & Hr). f_equal. apply IH; auto. rewrite Hm. assumption.
-Qed.
-
-Theorem netstring_roundtrip rmax ps n :
-  wf_net n = true -> flat n = concat (map frame ps) ->
-  Forall (fun p => length p <= rmax) ps ->
-  ns_read_retry (ns_init rmax n []) (length ps) = map OBytes ps.
-Proof.
-  intros W Hf Hall. apply ns_read_retry_ok; auto.
-  constructor; cbn [ns_init ns_bs bs_init nt recvsize ns_msgsize_maxsize ns_maxsize]; auto.
-  apply Nat.ltb_lt. vm_compute. reflexivity.
-Qed.
